@@ -16,7 +16,7 @@ struct UpHarness : HarnessBase {
 	int aid[2] = {1, 2};   // which allocator instance each pointer currently carries (it travels with the pointee)
 	const char *prop() const { return "C16"; }
 	U &s(int a) { return *reinterpret_cast<U *>(store[a]); }
-	void reset() { world_reset(); for(int a = 0; a < 2; a++) { memset(store[a], 0, sizeof(U)); new(store[a]) U(TrackAlloc{a + 1}); alive[a] = true; ref[a] = {}; aid[a] = a + 1; } }
+	void reset() { world_reset(); for(int a = 0; a < 2; a++) { memset(store[a], 0xA5, sizeof(U)); new(store[a]) U(TrackAlloc{a + 1}); alive[a] = true; ref[a] = {}; aid[a] = a + 1; } }
 	enum { MAKE, ADOPT, MOVE_CONS, MOVE_ASSIGN, RESET_NULL, RESET_NEW, RELEASE, SWAP, MUTATE };
 	void ops(std::vector<uint32_t> &out) {
 		for(uint32_t a = 0; a < 2; a++) {
@@ -65,7 +65,7 @@ struct UmHarness : HarnessBase {
 	TrackAlloc alloc;
 	const char *prop() const { return "C16"; }
 	U &s(int a) { return *reinterpret_cast<U *>(store[a]); }
-	void reset() { world_reset(); for(int a = 0; a < 2; a++) { memset(store[a], 0, sizeof(U)); new(store[a]) U(); alive[a] = true; ref[a] = 0; on[a] = false; } }
+	void reset() { world_reset(); for(int a = 0; a < 2; a++) { memset(store[a], 0xA5, sizeof(U)); new(store[a]) U; alive[a] = true; ref[a] = 0; on[a] = false; } }
 	enum { SIZED, DEFAULT, MOVE_CONS, ASSIGN, SWAP, WRITE };
 	void ops(std::vector<uint32_t> &out) {
 		for(uint32_t a = 0; a < 2; a++) {
